@@ -99,6 +99,7 @@ class NFEval:
         self.funcs = {}           # atom key -> (function name, argument normal form) for atoms that can be differentiated
         self.derivs = {}          # atom key -> {variable key: normal form}: declared derivatives of function symbols (ODE right-hand sides)
         self.split_exp = False         # opt-in: exp of a sum is the product of the exps of its (distributed) monomials
+        self.interior_clamps = False   # opt-in: numpy.clip(x, lo, hi) is read as x (identities claimed on the open set where no bound is active)
         self.factor_symbolic = False   # opt-in: sum atoms are made with the symbolic powers of their first term factored out
         self.sample = None        # optional {atom key: number}: a point of the domain, used to orient sum atoms
 
@@ -672,6 +673,15 @@ class NFEval:
             b = self.nf(n.args[0])
             return self.atom('attr(%s,%s)' % (n.val, b.key() if b is not NAN else 'NAN'))
         if k == 'call':
+            if self.interior_clamps and n.val == 'numpy.clip' and len(n.args) == 3:
+                return self.nf(n.args[0])
+            if self.interior_clamps and n.val in ('builtins.max', 'builtins.min', 'numpy.maximum', 'numpy.minimum') \
+                    and len(n.args) == 2:
+                # max(-1, x) / min(1, x): the clamp of a cosine, read as x on the open set
+                lits = [a for a in n.args if a.kind == 'const' and a.val in (1, -1)
+                        or a.kind == 'unop' and a.val == '-' and a.args and a.args[0].kind == 'const' and a.args[0].val == 1]
+                if len(lits) == 1:
+                    return self.nf([a for a in n.args if a is not lits[0]][0])
             return self.nf_call(n)
         if k == 'mcall':
             recv = self.nf(n.args[0])
